@@ -210,6 +210,112 @@ theorem indep_exact (ops : List Op) (hw : WfRun World.init ops) (k : Nat) (o : O
   let hi := (inv_reachable ops hw).obj k o ho
   ⟨hi.indepNodup, hi.indepSub, hi.indepIff⟩
 
+/-! ### chains of any length along histories: links in sync stay in sync
+
+`AllSynced w o`: both ends of every registered link of the object hold the same value.  An update
+that names independent parameters only — `setParameterValue` of an independent parameter,
+`setParametersValues` / `matchParametersValues` with such a source — keeps every link in sync,
+whatever the shape of the forest; so along a history of such updates every parameter equals the
+parameter it follows *through a chain of any length* (`synced_chain`).  What breaks sync is
+writing an aliased parameter by name and aliasing two parameters that hold different values
+(`chain_needs_sync_witness`); `setAllParametersValues` writes every parameter by name and is
+covered by `alias_tracks_direct` / `alias_tracks_chain` only. -/
+
+/-- **alias_tracks, every bulk route, chains of any length** -/
+theorem alias_tracks_independent_updates {w : World} (h : Inv w) {k : Nat} {o : Obj} (ho : w.objs k = some o)
+    (hsy : AllSynced w o) :
+    (∀ n v, (∀ t, find? w.heap o.params (o.pre ++ n) = some t → t ∈ o.indep) →
+      (apSetParameterValue w k n v).err = none → AllSynced (apSetParameterValue w k n v).w o) ∧
+    (∀ src, NamesIndep w o src → (apSetParametersValues w k src).err = none →
+      AllSynced (apSetParametersValues w k src).w o) ∧
+    (∀ src, NamesIndep w o src → (apMatchParametersValues w k src).1.err = none →
+      AllSynced (apMatchParametersValues w k src).1.w o) := by
+  have hi := h.obj k o ho
+  refine ⟨fun n v hn ok => ?_, fun src hn ok => ?_, fun src hn ok => ?_⟩
+  · simp only [apSetParameterValue, ho, setParameterValue] at ok ⊢
+    cases hf : find? w.heap o.params (o.pre ++ n) with
+    | none => simp [hf] at ok
+    | some t =>
+      simp only [hf] at ok ⊢
+      exact synced_setValue_root hi ho hsy (hn t hf) ok
+  · simp only [apSetParametersValues, ho, setParametersValues] at ok ⊢
+    cases hc : Alias.checkSome w o.params src with
+    | some e => simp [hc] at ok
+    | none =>
+      simp only [hc] at ok ⊢
+      exact synced_applySome src w hi ho hsy hn ok
+  · simp only [apMatchParametersValues, ho, matchParametersValues] at ok ⊢
+    cases hc : Alias.checkSome w o.params src with
+    | some e => simp [hc] at ok
+    | none =>
+      simp only [hc] at ok ⊢
+      exact synced_matchSome src w hi ho hsy hn ok
+
+/-- in sync link by link = equal along every chain: if position `c` follows position `p` through any
+number of links, the two parameters hold the same value -/
+theorem synced_chain {w : World} {k : Nat} {o : Obj} (hi : ObjInv w k o) (hsy : AllSynced w o) {c p : Nat} {tc tp : ObjId}
+    (hch : Relation.ReflTransGen (Follows w o) c p) (hc : o.params[c]? = some tc) (hp : o.params[p]? = some tp) :
+    val w tc = val w tp := by
+  induction hch using Relation.ReflTransGen.head_induction_on generalizing tc with
+  | refl => rw [hc] at hp; cases hp; rfl
+  | head hfol _ ih =>
+    obtain ⟨e, he, ha, s, hs, hsn⟩ := hfol
+    rw [hsy e he s tc (List.mem_of_getElem? hs) hsn (by rw [ha]; exact hc)]
+    exact ih hs
+
+/-- aliasing two parameters that hold the same value keeps all links in sync -/
+theorem alias_keeps_sync {w : World} (h : Inv w) {k : Nat} {o : Obj} (ho : w.objs k = some o) (hsy : AllSynced w o)
+    {p1 p2 : String} (ok : (aliasPair w k p1 p2).err = none)
+    (heq : ∀ i1 i2, find? w.heap o.params (o.pre ++ p1) = some i1 → find? w.heap o.params (o.pre ++ p2) = some i2 →
+      val w i1 = val w i2) :
+    ∀ o', (aliasPair w k p1 p2).w.objs k = some o' → AllSynced (aliasPair w k p1 p2).w o' := by
+  have hi := h.obj k o ho
+  obtain ⟨_, _, _, _, _, _, _, _, _, _, _, _, _, hval⟩ := alias_installs_link h ho ok
+  obtain ⟨⟨j1, j2, pos1, pos2, hj1, hj2, hn1, hn2, hind, _, hweq, _, _⟩⟩ := aliasPair_done hi ho ok
+  have hss := aliasConstraints_sameShape w j1 j2
+  have h1 : find? w.heap o.params (o.pre ++ p1) = some j1 := (find?_iff hi.nodup).2 ⟨List.mem_of_getElem? hj1, hn1⟩
+  have h2 : find? w.heap o.params (o.pre ++ p2) = some j2 := (find?_iff hi.nodup).2 ⟨List.mem_of_getElem? hj2, hn2⟩
+  have hobj : (aliasPair w k p1 p2).w.objs k = some (aliasedObj o p1 p2 j2 w.lnext) := by
+    rw [hweq]; simp [aliased, hss.lnext]
+  intro o' ho'
+  rw [hobj] at ho'; cases ho'
+  have hname : ∀ i, nameOf (aliasPair w k p1 p2).w.heap i = nameOf w.heap i := by
+    intro i; rw [hweq]; exact hss.name i
+  -- the registry of the new object
+  have hfresh : aliasId p1 p2 ∉ o.reg.map Prod.fst := by
+    intro hm
+    obtain ⟨e, he, hk⟩ := List.mem_map.1 hm
+    have := reg_entry_of_id hi (List.mem_of_getElem? hj2) hn2 (show (aliasId p1 p2, e.2) ∈ o.reg by rw [← hk]; exact he)
+    exact (hi.indepIff j2 (List.mem_of_getElem? hj2)).1 hind ⟨_, he, this.2⟩
+  intro e he s t hs hsn ht
+  rw [hval, hval]
+  have hmem : e ∈ mapInsert (aliasId p1 p2) w.lnext o.reg := he
+  rcases (mem_mapInsert hfresh e).1 hmem with rfl | hold
+  · -- the new link
+    have hl : (aliasPair w k p1 p2).w.lis w.lnext = ⟨aliasId p1 p2, pos2, k, o.pre ++ p2, p1⟩ := by
+      rw [hweq]; simp [aliased, hss.lnext]
+    simp only [hl] at hsn ht
+    rw [hname] at hsn
+    have es : s = j1 := hi.name_inj hs (List.mem_of_getElem? hj1) (hsn.trans hn1.symm)
+    have et : t = j2 := by
+      have ht' : o.params[pos2]? = some t := ht
+      rw [hj2] at ht'; exact (Option.some.inj ht').symm
+    rw [es, et]
+    exact (heq j1 j2 h1 h2).symm
+  · have hl : (aliasPair w k p1 p2).w.lis e.2 = w.lis e.2 := by
+      have : e.2 ≠ (aliasConstraints w j1 j2).w.lnext := by
+        rw [hss.lnext]; exact Nat.ne_of_lt (hi.regOk e hold).lt
+      rw [hweq]; simp [aliased, this, hss.lis]
+    rw [hl] at hsn ht
+    rw [hname] at hsn
+    exact hsy e hold s t hs hsn ht
+
+/-- non-vacuity: b and c follow a (all equal); bulk update of the independent parameters a and d -/
+example :
+    let w := run World.init [.new 0 "", .add 0 ⟨"a", 1, none⟩, .add 0 ⟨"b", 1, none⟩, .add 0 ⟨"c", 1, none⟩,
+      .add 0 ⟨"d", 4, none⟩, .alias 0 "a" "b", .alias 0 "b" "c", .setvs 0 [("d", 6), ("a", 5)]]
+    (val w 0, val w 1, val w 2, val w 3) = (5, 5, 5, 6) := by decide
+
 /-! ## refuse_twice / refuse_cycle — refused requests leave everything unchanged -/
 
 /-- **refuse_twice**: `p2` already follows somebody (it is not independent): `Exception`, and the
